@@ -35,7 +35,8 @@ type c13Scenario struct {
 	LatencyNs              int64      `json:"latency_ns"`
 	Seg                    int        `json:"segmentation"`
 	StopDuringFirstConnect bool       `json:"stop_during_the_first_connect,omitempty"`
-	StopEarlyMs            int        `json:"stop_early_ms,omitempty"` // >0: Stop is called this long after the last round's fault, whatever the client is doing then
+	WebSocketRefusals      int        `json:"websocket_session_lost_then_refused_dials,omitempty"` // >0: the sub-scenario over the WebSocket transport
+	StopEarlyMs            int        `json:"stop_early_ms,omitempty"`                             // >0: Stop is called this long after the last round's fault, whatever the client is doing then
 }
 
 func init() {
@@ -50,6 +51,9 @@ func init() {
 }
 
 func runC13(e *Engine, g G, o RunOpt) RunInfo {
+	if g.Pct("websocket", 6) {
+		return runC13WS(e, g, o)
+	}
 	sc := &c13Scenario{Client: DefaultClientOpts()}
 	sc.Client.SM = g.Bool("sm")
 	sc.Client.SMResume = sc.Client.SM
@@ -519,4 +523,79 @@ func attemptKinds(a []string) string {
 		return "none"
 	}
 	return strings.Join(out, "+")
+}
+
+// runC13WS: the same promise over the WebSocket transport - an established session is lost, the next
+// 1-3 connection attempts are refused, then the server accepts again: the manager re-establishes one
+// session. (A loss is only noticed by the next keepalive on this transport.)
+func runC13WS(e *Engine, g G, o RunOpt) RunInfo {
+	sc := &c13Scenario{Client: DefaultClientOpts()}
+	sc.Client.WebSocket, sc.Client.Insecure = true, true
+	sc.Client.KeepaliveNs = int64(5*time.Second) + 1
+	sc.WebSocketRefusals = g.Range("ws-refusals", 1, 3)
+	firstUp, reestablished, stopped, runReturned := false, false, false, false
+	e.Run(func() {
+		ws := NewWSServer(e)
+		defer ws.Stop()
+		w := NewCW(e, sc.Client, sharedCerts())
+		w.CatchAll()
+		if err := w.Create(); err != nil {
+			return
+		}
+		refuse := 0
+		e.Net.DialPlan = func(idx int) Dial {
+			if refuse > 0 {
+				refuse--
+				return DialRefuse
+			}
+			return DialAccept
+		}
+		postConnects := 0
+		sm := xmpp.NewStreamManager(w.Client, func(xmpp.Sender) { postConnects++ })
+		e.Go("sm.Run", func() {
+			err := sm.Run()
+			runReturned = true
+			e.Logf("api.ret", "StreamManager.Run returned %v", err)
+		})
+		up := func(n int) bool { return len(ws.Conns) >= n && ws.Conns[n-1].Established && postConnects >= n }
+		if e.WaitUntilFor("first-session", 2*time.Minute, func() bool { return up(1) }) || ws.Conns[0].Pipe == nil {
+			return
+		}
+		firstUp = true
+		e.Sleep(time.Second)
+		c0 := ws.Conns[0]
+		refuse = sc.WebSocketRefusals
+		c0.Pipe.Cli.CutAt = c0.Pipe.Srv.TotalWritten
+		c0.Pipe.Cli.CutErr = io.EOF
+		e.Fault("conn.cut.fin")
+		// noticed by the next keepalive; then the refusals with their back-off; then the new session
+		reestablished = !e.WaitUntilFor("ws-reestablished", 10*time.Minute, func() bool { return up(2) })
+		e.Probe("c13.websocket_session_lost")
+		e.Sleep(time.Minute)
+		e.Call("StreamManager.Stop", func() error { sm.Stop(); return nil })
+		stopped = true
+		e.WaitUntilFor("run-returns", 2*time.Minute, func() bool { return runReturned })
+		e.Sleep(time.Minute)
+	})
+	info := RunInfo{Scenario: sc, Nontrivial: firstUp}
+	if !firstUp {
+		e.Probe("precondition_failed")
+		return info
+	}
+	for _, p := range e.Panics {
+		e.Violate("C13", "panic:"+panicSite(p)+":websocket", "%s: %s\n%s", p.Where, p.Value, clip(p.Stack, 1500))
+	}
+	if e.Stuck != "" {
+		e.Violate("C13", "stuck", "%s", e.Stuck)
+	}
+	if !reestablished && len(e.Violations) == 0 {
+		e.Violate("C13", "not-reestablished:websocket:refuse", "WebSocket transport: the session was lost, %d connection attempts were refused, then the server accepted again: no new session within 10 minutes", sc.WebSocketRefusals)
+	}
+	if stopped && !runReturned && len(e.Violations) == 0 {
+		e.Violate("C13", "run-does-not-return", "StreamManager.Run did not return within 2 minutes of Stop() (WebSocket)")
+	}
+	if reestablished {
+		e.Probe("c13.reestablished")
+	}
+	return info
 }
